@@ -107,6 +107,18 @@ func setOutgoingHeader(header http.Header, md metadata.MD) {
 	}
 }
 
+// setOutgoingTrailer writes metadata set by the handler as HTTP trailers. The
+// headers have been flushed by then and only Grpc-Status, Grpc-Message and
+// Grpc-Status-Details-Bin were announced in the Trailer header: any other key
+// has to carry http.TrailerPrefix to be sent.
+func setOutgoingTrailer(header http.Header, md metadata.MD) {
+	tr := make(http.Header, len(md))
+	setOutgoingHeader(tr, md)
+	for k, vs := range tr {
+		header[http.TrailerPrefix+k] = vs
+	}
+}
+
 func encodeGrpcMessage(msg string) string {
 	var (
 		sb  strings.Builder
@@ -592,13 +604,11 @@ func (m *Mux) serveGRPC(w http.ResponseWriter, r *http.Request) {
 			h.Set("Grpc-Status-Details-Bin", encodeBinHeader(stBytes))
 		}
 	}
-	setOutgoingHeader(h, stream.trailer)
+	setOutgoingTrailer(h, stream.trailer)
 
 	if sh := m.opts.statsHandler; sh != nil {
 		endTime := time.Now()
 
-		// Try to send Trailers, might not be respected.
-		setOutgoingHeader(w.Header(), stream.trailer)
 		sh.HandleRPC(ctx, &stats.OutTrailer{
 			Trailer: stream.trailer.Copy(),
 		})
